@@ -218,6 +218,24 @@ M: List[Tuple[str, str, str, str, str]] = [
     ('c18-dispatcher-dies-on-eof', 'C18', 'proxy/core/event/dispatcher.py',
      "            except BrokenPipeError:\n                logger.warning(\n                    'Subscriber#%s broken pipe', sub_id,",
      "            except ConnectionResetError:\n                logger.warning(\n                    'Subscriber#%s broken pipe', sub_id,"),
+    # ---- C19 ---------------------------------------------------------------
+    ('c19-revert-primary-first', 'C19', 'proxy/core/listener/pool.py',
+     "        ports = [] if self.flags.unix_socket_path else [self.flags.port]\n        ports.extend(self.flags.ports)",
+     "        ports = list(self.flags.ports)\n        if not self.flags.unix_socket_path:\n            ports.append(self.flags.port)"),
+    ('c19-port-file-left-behind', 'C19', 'proxy/proxy.py',
+     "        if self.flags.port_file \\\n                and os.path.exists(self.flags.port_file):",
+     "        if self.flags.port_file and not self.flags.ports \\\n                and os.path.exists(self.flags.port_file):"),
+    ('c19-port-file-sorted', 'C19', 'proxy/proxy.py',
+     "                if not self.flags.unix_socket_path:\n                    port_file.write(bytes_(self.flags.port))\n                    port_file.write(b'\\n')\n                for port in self.flags.ports:",
+     "                for port in sorted(self.flags.ports + ([] if self.flags.unix_socket_path else [self.flags.port])):"),
+    ('c19-ephemeral-extra-not-read-back', 'C19', 'proxy/proxy.py',
+     "        for index in range(offset, offset + len(self.flags.ports)):\n            ports.add(\n                cast(\n                    'TcpSocketListener',\n                    self.listeners.pool[index],\n                )._port,\n            )",
+     "        for index in range(offset, offset + len(self.flags.ports)):\n            ports.add(\n                cast(\n                    'TcpSocketListener',\n                    self.listeners.pool[index],\n                ).port,\n            )"),
+    ('c19-executors-not-stopped', 'C19', 'proxy/proxy.py',
+     "        if self.remote_executors_enabled:\n            assert self.executors\n            self.executors.shutdown()",
+     "        if self.remote_executors_enabled and self.flags.num_workers < 2:\n            assert self.executors\n            self.executors.shutdown()"),
+    ('c19-unix-skips-additional-ports', 'C19', 'proxy/core/listener/pool.py',
+     "        ports.extend(self.flags.ports)", "        ports.extend(self.flags.ports if ports else [])"),
 ]
 
 
